@@ -10,9 +10,9 @@
    z <pattern> <word>*   -> "<first index whose word matches and is a number> <first index ... and is zero>" (-1 = none)
    p <text> -> 1 if the text is inside the fragment the spec reads, else 0
    f <hacks 0|1> <nl> <fline>*nl <line> <nv> (<name> <flags8>)* <nm> (<pattern> <code>)* <tree>
-       fline := I<hexpath> | A<hexname> | O0 | O1 | C | X     (Spec/PrefsFile.v fline; flag 5 of flags8 is ignored:
+       fline := I<hexpath> | A<hexname> | U<hexname> | O0 | O1 | C | X     (Spec/PrefsFile.v fline; flag 5 of flags8 is ignored:
        the model computes vars.IsDefined and SeenPrefs from the lines, Model/CondFile.v check_file_line)
-       -> <model SeenPrefs> <spec su_prefs> <spec conditional_prefs_include> then as w
+       -> <model SeenPrefs> <spec su_prefs> <spec conditional_prefs_include> <spec: first variable in su_undef> then as w
    l <path> -> "<Model loads_prefs> <Spec really_loads_prefs> <hex path_base>" *)
 let flag s i = s.[i] = '1'
 let rec take_tree (toks : string list) : mkcond * string list =
@@ -48,6 +48,7 @@ let fline_of tok =
   else match tok.[0] with
     | 'I' -> FInclude (bytes_of_hex (String.sub tok 1 (String.length tok - 1)))
     | 'A' -> FAssign (bytes_of_hex (String.sub tok 1 (String.length tok - 1)))
+    | 'U' -> FUndef (bytes_of_hex (String.sub tok 1 (String.length tok - 1)))
     | _ -> failwith "bad fline"
 let rec take_n n toks =
   if n = 0 then ([], toks) else
@@ -97,7 +98,8 @@ let handle (args : string list) : string =
      | line :: nv :: rest ->
        let st = scan (init_state (hacks = "1")) pre in
        b01 st.fs_seen_prefs ^ " " ^ b01 (sure_after pre).su_prefs ^ " "
-       ^ b01 (conditional_prefs_include { su_prefs = false; su_assigned = []; su_open = [] } pre) ^ " "
+       ^ b01 (conditional_prefs_include { su_prefs = false; su_assigned = []; su_open = []; su_undef = [] } pre) ^ " "
+       ^ (match rest with name :: _ when nv <> "0" -> b01 (in_strs (bytes_of_hex name) (sure_after pre).su_undef) | _ -> "0") ^ " "
        ^ check_request (fun var_of mmn_of l tree -> check_file_line var_of mmn_of (hacks = "1") pre l tree) line nv rest
      | _ -> "ERR:bad f request")
   | ["l"; path] ->
